@@ -42,7 +42,8 @@ RULE = ("cell = one random typed program (op sequence over products with every f
         "object + cross-schedule comparisons")
 
 QUERIES = ("integrate", "log_integral", "log_integral_light", "evaluate", "get_density",
-           "integrate_x", "integrate_xx", "integral_light")
+           "integrate_x", "integrate_xx", "integral_light", "log_factor", "quartic", "entropy",
+           "sample", "truncate", "slice", "evaluate_elementwise")
 
 
 def cells(tier, seed):
@@ -72,9 +73,9 @@ def gen_program(rng, D, maxlen):
     while len(ops) - 1 < n:
         cand = ["mul", "mul", "mul", "had", "slice", "density", "product"]
         if is_pdf:
-            cand += ["lin", "lin", "update", "approx", "linsum"]
+            cand += ["lin", "lin", "update", "approx", "linsum", "bayes"]
             if D > 1:
-                cand += ["marginal", "condition"]
+                cand += ["marginal", "condition", "explicit"]
         else:
             cand += ["normalize"]
         op = str(rng.choice(cand))
@@ -115,6 +116,17 @@ def gen_program(rng, D, maxlen):
             dims = [int(v) for v in rng.permutation(D)[:k]]
             ops.append(("condition", dims))
             D = D - k
+        elif op == "explicit":
+            k = int(rng.integers(1, D))
+            perm = [int(v) for v in rng.permutation(D)]
+            ops.append(("explicit", perm[:k], perm[k:]))
+            D = D - k
+        elif op == "bayes":
+            ck = str(rng.choice(("full", "diag", "identity")))
+            Dy = D if ck == "identity" else int(rng.integers(1, 4))
+            N = int(rng.integers(1, 4))
+            ops.append(("bayes", ck, Dy, N))
+            is_pdf = False
         elif op == "linsum":
             k = int(rng.integers(1, D + 1))
             ops.append(("linsum", k))
@@ -166,6 +178,8 @@ def signature(ops):
             sig.append(("slice", len(o[1])))
         elif o[0] in ("marginal", "condition"):
             sig.append((o[0], len(o[1])))
+        elif o[0] == "explicit":
+            sig.append((o[0], len(o[1]), len(o[2])))
         else:
             sig.append(tuple(o))
     return sig
@@ -198,6 +212,27 @@ def do_query(cur, q, x):
         cur.integrate("x")
     elif q == "integrate_xx":
         cur.integrate("xx'")
+    elif q == "log_factor":
+        L = build.lib()
+        cur.integrate("log u(x)", factor=L.factor.LinearFactor(nu=J(np.ones((1, cur.D)))))
+    elif q == "quartic":
+        A = J(np.ones((1, cur.D)))
+        cur.integrate("(Ax+a)'(Bx+b)(Cx+c)'(Dx+d)", A_mat=A, B_mat=A, C_mat=A, D_mat=A)
+    elif q == "entropy":
+        if hasattr(cur, "entropy"):
+            cur.entropy()
+    elif q == "sample":
+        if hasattr(cur, "sample"):
+            import jax
+            cur.sample(jax.random.PRNGKey(0), 2)
+    elif q == "truncate":
+        if cur.D == 1:
+            from gaussian_toolbox.experimental import truncated_measure as tm
+            tm.TruncatedGaussianMeasure(measure=cur, lower_limit=0.0).integrate("x")
+    elif q == "slice":
+        cur.slice(JI([0])).integrate()
+    elif q == "evaluate_elementwise":
+        cur.evaluate_ln(J(np.zeros((cur.R, cur.D)) + 0.1), element_wise=True)
 
 
 def execute(ops, seed_key, schedule, qrng, rec, info, scale=None):
@@ -251,6 +286,15 @@ def execute(ops, seed_key, schedule, qrng, rec, info, scale=None):
             c = cur.condition_on(IX(op[1]))
             xb = gen.vec(rng, 1, len(op[1]))
             cur = c.condition_on_x(J(xb))
+        elif kind == "explicit":
+            c = cur.condition_on_explicit(IX(op[1]), IX(op[2]))
+            xb = gen.vec(rng, 1, len(op[1]))
+            cur = c.condition_on_x(J(xb))
+        elif kind == "bayes":
+            _, ck, Dy, N = op
+            c, tc, kw = build.mk_conditional(ck, rng, 1, Dy, cur.D, kappa=10.0)
+            y = gen.vec(rng, N, Dy)
+            cur = cur.multiply(c.set_y(J(y)).product(), update_full=bool(uf_override))
         elif kind == "linsum":
             W = gen.lin_map(rng, cur.R, op[1], cur.D)
             b = gen.vec(rng, cur.R, op[1])
